@@ -138,144 +138,62 @@ def tlc_histories(start, maxops, c=None):
 # ----------------------------------------------------------------------------- random paced histories (Python walk)
 
 
-class Model:
-    """Tiny tree model used to generate long random paced histories (same pacing rule as FsKernel.PacingOK)."""
-
-    def __init__(self, start, outside, rng, names):
-        self.t = {tuple(p.split("/")): ("dir" if k == "d" else "file") for p, k in start}
-        self.o = {tuple(p.split("/")): ("dir" if k == "d" else "file") for p, k in outside}
-        self.rng = rng
-        self.names = names
-        self.hot = set()  # hot directory paths (current), hot names
-        self.hotn = set()
-        self.nout = 0
-
-    def below_hot(self, p):
-        return any(p[: len(h)] == h for h in self.hot)
-
-    def dirs(self):
-        return [()] + [p for p, k in self.t.items() if k == "dir"]
-
-    def step(self, maxdepth=4):
-        rng = self.rng
-        for _ in range(40):
-            kind = rng.choice(["mkdir", "creat", "write", "chmod", "unlink", "rmdir", "rmtree", "rename", "rename", "moveout",
-                               "movein", "makedirs", "drain"])
-            if kind == "drain":
-                if self.hot or self.hotn:
-                    self.hot.clear()
-                    self.hotn.clear()
-                    return ["drain"]
-                continue
-            if kind in ("mkdir", "creat", "makedirs"):
-                d = rng.choice(self.dirs())
-                n = rng.choice(self.names)
-                p = d + (n,)
-                if p in self.t or self.below_hot(d) or p in self.hotn or len(p) > maxdepth:
-                    continue
-                if kind == "mkdir":
-                    self.t[p] = "dir"
-                    self.hot.add(p)
-                    self.hotn.add(p)
-                    return ["mkdir", "/".join(p)]
-                if kind == "creat":
-                    self.t[p] = "file"
-                    return ["creat", "/".join(p)]
-                n2 = rng.choice(self.names)
-                if len(p) + 1 > maxdepth:
-                    continue
-                self.t[p] = "dir"
-                self.t[p + (n2,)] = "dir"
-                self.hot |= {p, p + (n2,)}
-                self.hotn |= {p, p + (n2,)}
-                return ["makedirs", "/".join(p + (n2,))]
-            ents = sorted(self.t)
-            if not ents:
-                continue
-            p = rng.choice(ents)
-            k = self.t[p]
-            if self.below_hot(p[:-1]):
-                continue
-            if kind == "write" and k == "file":
-                return ["write", "/".join(p)]
-            if kind == "chmod":
-                return ["chmod", "/".join(p)]
-            if kind == "unlink" and k == "file":
-                del self.t[p]
-                return ["unlink", "/".join(p)]
-            sub = [q for q in self.t if q[: len(p)] == p and q != p]
-            if kind == "rmdir" and k == "dir" and not sub:
-                del self.t[p]
-                self.hot.discard(p)
-                self.hotn.add(p)
-                return ["rmdir", "/".join(p)]
-            if kind == "rmtree" and k == "dir" and sub and not any(self.below_hot(q[:-1]) for q in sub):
-                for q in sub + [p]:
-                    del self.t[q]
-                self.hotn.add(p)
-                return ["rmtree", "/".join(p)]
-            if kind == "rename":
-                d = rng.choice([x for x in self.dirs() if x[: len(p)] != p] or [()])
-                dst = d + (rng.choice(self.names),)
-                if dst == p or self.below_hot(d) or len(dst) + (1 if sub else 0) > maxdepth:
-                    continue
-                if dst in self.t:
-                    vsub = [q for q in self.t if q[: len(dst)] == dst and q != dst]
-                    if self.t[dst] != k or vsub or self.below_hot(dst[:-1]):
-                        continue
-                elif dst in self.hotn and p not in self.hot:
-                    continue
-                moved = {q: self.t[q] for q in [p] + sub}
-                for q in moved:
-                    del self.t[q]
-                for q, kk in moved.items():
-                    self.t[dst + q[len(p):]] = kk
-                if k == "dir":
-                    self.hot.discard(p)
-                    self.hot.add(dst)
-                    self.hotn |= {p, dst}
-                return ["rename", "/".join(p), "/".join(dst)]
-            if kind == "moveout":
-                self.nout += 1
-                dst = (f"z{self.nout}",)
-                moved = {q: self.t[q] for q in [p] + sub}
-                for q in moved:
-                    del self.t[q]
-                for q, kk in moved.items():
-                    self.o[dst + q[len(p):]] = kk
-                if k == "dir":
-                    self.hot.discard(p)
-                    self.hotn.add(p)
-                return ["moveout", "/".join(p), "/".join(dst)]
-            if kind == "movein":
-                tops = sorted(q for q in self.o if len(q) == 1)
-                if not tops:
-                    continue
-                src = rng.choice(tops)
-                d = rng.choice(self.dirs())
-                dst = d + (rng.choice(self.names),)
-                osub = [q for q in self.o if q[:1] == src and q != src]
-                depth = max([len(q) for q in osub] + [1])
-                if dst in self.t or self.below_hot(d) or dst in self.hotn or len(dst) + depth - 1 > maxdepth:
-                    continue
-                moved = {q: self.o[q] for q in [src] + osub}
-                for q in moved:
-                    del self.o[q]
-                for q, kk in moved.items():
-                    self.t[dst + q[1:]] = kk
-                if moved[src] == "dir":
-                    self.hot.add(dst)
-                    self.hotn.add(dst)
-                return ["movein", "/".join(src), "/".join(dst)]
+def _propose(rng, T, O, names, nout):
+    """A random operation that is executable on the trees T / O (pacing is decided by history_check)."""
+    dirs = [()] + [p for p, k in T.items() if k == "dir"]
+    ents = sorted(T)
+    kind = rng.choice(["mkdir", "creat", "write", "chmod", "unlink", "rmdir", "rmtree", "rename", "rename", "moveout", "movein",
+                       "makedirs", "drain"])
+    j = "/".join
+    if kind == "drain":
         return ["drain"]
+    if kind in ("mkdir", "creat"):
+        return [kind, j(rng.choice(dirs) + (rng.choice(names),))]
+    if kind == "makedirs":
+        return [kind, j(rng.choice(dirs) + (rng.choice(names), rng.choice(names)))]
+    if kind == "movein":
+        tops = sorted(q for q in O if len(q) == 1)
+        if not tops:
+            return None
+        return [kind, j(rng.choice(tops)), j(rng.choice(dirs) + (rng.choice(names),))]
+    if not ents:
+        return None
+    p = rng.choice(ents)
+    if kind in ("write", "chmod", "unlink", "rmdir", "rmtree"):
+        return [kind, j(p)]
+    if kind == "rename":
+        return [kind, j(p), j(rng.choice(dirs) + (rng.choice(names),))]
+    return ["moveout", j(p), f"z{nout}"]
 
 
-def random_history(seed, length, names=("a", "b", "c", "d", "e", "f")):
+def random_history(seed, length, names=("a", "b", "c", "d", "e", "f"), maxdepth=4):
+    """Seeded random history that is executable and respects the pacing condition: every proposed operation is accepted
+    only if checks/history_check.py (the mirror of FsKernel.PacingOK, cross-checked against the TLC histories) accepts it."""
+    from checks import history_check as hc
+
     rng = random.Random(seed)
     base = START[rng.choice(["small", "deep", "empty"])]
     outside = list(base["outside"]) + [["t", "d"], ["t/u", "d"], ["t/u/g", "f"], ["t/h", "f"], ["s", "f"]]
-    m = Model(base["start"], outside, rng, list(names))
-    ops = [m.step() for _ in range(length)]
+    ops = []
+    reason, T, O = hc.simulate(base["start"], outside, ops)
+    nout = 0
+    tries = 0
+    while len(ops) < length and tries < length * 60:
+        tries += 1
+        op = _propose(rng, T, O, list(names), nout + 1)
+        if op is None or (op[0] == "drain" and (not ops or ops[-1][0] == "drain")):
+            continue
+        if len(op) > 1 and max(len(x.split("/")) for x in op[1:]) > maxdepth:
+            continue
+        r2, T2, O2 = hc.simulate(base["start"], outside, ops + [op])
+        if r2 is not None:
+            continue
+        if T2 and max(len(q) for q in T2) > maxdepth:
+            continue
+        ops.append(op)
+        T, O = T2, O2
+        if op[0] == "moveout":
+            nout += 1
     return {"start": base["start"], "outside": outside, "ops": ops}
 
 
@@ -310,6 +228,12 @@ def _run_job(job):
 
 def run_cases(c: checklib.Check, cases, label):
     """cases: list of (params, strategy spec).  Returns list of unique records."""
+    from checks import history_check as hc
+
+    for params, _spec in cases:
+        why = hc.check_history(params.get("start", []), params.get("outside", []), params["ops"], paced=params.get("paced", True))
+        if why:
+            c.machinery_failure(f"generated history is not executable / not paced: {why}; params={params}")
     k = c.jobs * 4
     chunks = [cases[i::k] for i in range(k)]
     chunks = [x for x in chunks if x]
